@@ -101,6 +101,9 @@ def delegated_table(prog, f, pt, op, lhs_p, rhs_p):
             if nxt is None:
                 break
             g, li, ri = nxt
+        # arms of the helper that live in private helpers of their own
+        import inline
+        g = inline.view(prog, g)
         gpaths = [((("arg", li), "*"), VALUE), ((("arg", ri), "*"), VALUE)]
         gt = ops.PairTable(prog, g, gpaths)
         acc = set()
